@@ -199,3 +199,59 @@ Example C19_derive_nonvacuous :
      OInitDone 1 derive_name; OCommit derive_sid] /\
   option_map (fun t => fst (fst (q_init t))) (nth_error (d_root (cs_db cx_s)) 0) = Some true.
 Proof. exact derive_init_nonvacuous. Qed.
+(* ---- run level (Table/ClientsRun7.v): the leg of the loop that completes the derived table's initializer, in any
+   run from the initial database in which the harness does not write the derived table or use the loop's iterator id:
+   (a) it ran against a root whose INPUT table is initialized, (b) it issued the mark in its own transaction,
+   (c) if its Next refreshed, the derived table committed together with the mark has exactly the contents of the input
+   table (revision room = no uint64 overflow is the only residual hypothesis) *)
+From SV Require Import Table.ChangesProofs Table.ChangesHist Table.ChangesFromInit Table.ClientsRun Table.ClientsRun5 Table.ClientsRun7.
+
+Theorem C19_derive_init_handover : forall n inn out cs s outs ops ds s' x ops1 ds',
+  (out < n)%nat -> (inn < n)%nat -> inn <> out -> forallb (cop_okG inn out) cs = true ->
+  crun (init_csys n 0) cs = (s, outs, ops) ->
+  cstep s CDeriveGo = (s', x, ops1) ->
+  cs_d s = Some ds -> dv_marked ds = false -> cs_d s' = Some ds' -> dv_marked ds' = true ->
+  (exists tin, nth_error (d_root (cs_db s)) inn = Some tin /\ fst (fst (q_init tin)) = true) /\
+  In (OInitDone out derive_name) ops1 /\
+  d_txn (cs_db s) = None /\ dv_phase ds <> DReg /\ d_ready ds (cs_db s) = true /\
+  (forall S, next_source (fst (step (cs_db s) (OBegin [out]))) derive_iid STxn = Some S ->
+             room_run (init_db n) (ops ++ [OBegin [out]; ONext derive_iid STxn None]) ->
+             exists tin' tout', nth_error (d_root (cs_db s')) inn = Some tin' /\
+                                nth_error (d_root (cs_db s')) out = Some tout' /\
+                                contents tout' = contents tin' /\ contents tin' = contents S).
+Proof. exact derive_init_handover. Qed.
+Print Assumptions C19_derive_init_handover.
+
+(* ... and when its Next did not refresh (the loop was woken by the input's initialization channel alone) the derived
+   table already equalled the input table and the leg changes neither *)
+Theorem C19_derive_init_handover_idle : forall n inn out cs s outs ops ds s' x ops1 ds',
+  (out < n)%nat -> (inn < n)%nat -> inn <> out -> forallb (cop_okG inn out) cs = true ->
+  crun (init_csys n 0) cs = (s, outs, ops) ->
+  cstep s CDeriveGo = (s', x, ops1) ->
+  cs_d s = Some ds -> dv_marked ds = false -> cs_d s' = Some ds' -> dv_marked ds' = true ->
+  next_source (fst (step (cs_db s) (OBegin [out]))) derive_iid STxn = None ->
+  room_run (init_db n) ops ->
+  exists tin tout tin' tout',
+    nth_error (d_root (cs_db s)) inn = Some tin /\ nth_error (d_root (cs_db s)) out = Some tout /\
+    nth_error (d_root (cs_db s')) inn = Some tin' /\ nth_error (d_root (cs_db s')) out = Some tout' /\
+    contents tout = contents tin /\ contents tin' = contents tin /\ contents tout' = contents tout.
+Proof. exact derive_init_handover_idle. Qed.
+Print Assumptions C19_derive_init_handover_idle.
+
+Example C19_derive_init_handover_idle_nonvacuous :
+  let r := crun (init_csys 2 0) ix_run in
+  let s := fst (fst r) in
+  let r' := cstep s CDeriveGo in
+  forallb (cop_okG 0 1) ix_run = true /\
+  option_map dv_marked (cs_d s) = Some false /\ option_map dv_phase (cs_d s) = Some (DWait 1 (Some 0)) /\
+  option_map dv_marked (cs_d (fst (fst r'))) = Some true /\
+  snd r' = [OBegin [1%nat]; ONext derive_iid STxn None; OInitDone 1 derive_name; OCommit derive_sid] /\
+  next_source (fst (step (cs_db s) (OBegin [1%nat]))) derive_iid STxn = None /\
+  room_run (init_db 2) (snd r) /\
+  map contents (d_root (cs_db s)) = [[([97], 1)]; [([97], 1)]] /\
+  map contents (d_root (cs_db (fst (fst r')))) = [[([97], 1)]; [([97], 1)]] /\
+  option_map (fun t => fst (fst (q_init t))) (nth_error (d_root (cs_db s)) 0) = Some true /\
+  option_map (fun t => fst (fst (q_init t))) (nth_error (d_root (cs_db s)) 1) = Some false /\
+  option_map (fun t => fst (fst (q_init t))) (nth_error (d_root (cs_db (fst (fst r')))) 1) = Some true.
+Proof. exact derive_init_handover_idle_nonvacuous. Qed.
+
